@@ -420,6 +420,33 @@ pub fn gen_hist(rng: &mut Rng, profile: Profile, size: Size) -> Plan {
     Plan { keys, opens, ops, clients: vec![], tail: vec![] }
 }
 
+/// Block-boundary prefix for fault / crash base runs: the first WAL record is sized so that it ends
+/// r = 0..8 bytes before the first 32 KiB block boundary of the log (1-6 bytes left = a zero-padded
+/// trailer, 7 = an empty first fragment), and the memtable is large enough for the following small
+/// writes to be appended to the same WAL - so the padding write, the fragment headers around the
+/// boundary and everything the reader does there lie on the fault and crash points of the run.
+pub fn boundary_prefix(rng: &mut Rng, plan: &mut Plan) {
+    for k in plan.opens.iter_mut() {
+        k.max_memtable_size = 1 << 20;
+    }
+    if plan.keys.is_empty() {
+        return;
+    }
+    let r = rng.below(9) as u32;
+    let klen = plan.keys[0].len() as u32;
+    if klen >= 100 {
+        // huge-key plans are not aligned (the key-length varint and the value size would differ)
+        return;
+    }
+    // physical header 7 + sequence 8 + count 1 + operation 1 + key length 1 + key + value length 3 + value
+    let vlen = 32768 - 21 - klen - r;
+    let mut pre = vec![Op::Put { k: 0, v: Val { tag: 900_000 + r, len: vlen } }];
+    for j in 0..(1 + rng.below(3)) as u32 {
+        pre.push(Op::Put { k: (1 + j as usize) % plan.keys.len(), v: Val { tag: 900_100 + j, len: 12 + rng.below(40) as u32 } });
+    }
+    plan.ops.splice(0..0, pre);
+}
+
 #[derive(Clone, Copy, Debug, PartialEq, Eq)]
 pub enum ConcProfile {
     C05,
